@@ -15,7 +15,7 @@ PROP = 'C19'
 LEAN_MODULES = ['Glom.Props.C19']
 FACT_FILES = ['C19Facts', 'c19']
 READY = True
-THEOREMS_PER_MODULE = {'Glom.Props.C19': 9}
+THEOREMS_PER_MODULE = {'Glom.Props.C19': 8}
 MANIFEST = dict(
     text="PARTIAL proof. Lean 4 theorems over a code-shaped model of glom/cli.py (mw_get_target's source selection "
          "and precedence, first-character rule, spec_format/target_format tables extracted from the AST; "
